@@ -103,5 +103,22 @@ class DaeUnsupportedError(DaeError):
     """Raised when some unexpectedly unsupported feature is found."""
 
 
+def getReference(node, attribute):
+    """Return the id a reference attribute such as ``url="#id"`` points to.
+
+    :param node:
+      An Element from python's ElementTree API
+    :param str attribute:
+      Name of the attribute holding the reference
+
+    """
+    ref = node.get(attribute)
+    if ref is None:
+        raise DaeIncompleteError('Missing %s in %s' % (attribute, node.tag))
+    if not ref.startswith('#'):
+        raise DaeMalformedError('Invalid reference "%s" in %s' % (ref, node.tag))
+    return ref[1:]
+
+
 class DaeSaveValidationError(DaeError):
     """Raised when XML validation fails when saving."""
